@@ -364,3 +364,48 @@ Section OneFramework.
     rewrite E. exists cur'. split; [|exact F]. rewrite flat_map_no_ins. reflexivity.
   Qed.
 End OneFramework.
+
+(* ---------- a plan listed in a topological order is well formed ---------- *)
+Require Import MV.Proofs.OrchP MV.Proofs.PlannerAP.
+
+Lemma nodup_flat_map_split : forall (cores : list step) j j' s' x, NoDup (flat_map uuids cores) ->
+  nth_error cores j' = Some s' -> In x (uuids s') -> In x (flat_map uuids (firstn j cores)) -> j' < j.
+Proof.
+  intros cores j j' s' x Hnd Hj' Hx Hin. destruct (Nat.lt_ge_cases j' j) as [H|H]; [exact H|]. exfalso.
+  rewrite <- (firstn_skipn j cores) in Hnd. rewrite flat_map_app in Hnd.
+  assert (Hs : In x (flat_map uuids (skipn j cores))).
+  { apply in_flat_map. exists s'. split; [|exact Hx].
+    assert (E : nth_error (skipn j cores) (j' - j) = Some s').
+    { rewrite <- Hj'. rewrite <- (firstn_skipn j cores) at 2. rewrite nth_error_app2.
+      - rewrite firstn_length_le; [reflexivity|]. apply Nat.lt_le_incl. apply (Nat.le_lt_trans _ j'); [exact H|].
+        apply nth_error_Some. rewrite Hj'. discriminate.
+      - rewrite firstn_length. lia. }
+    exact (nth_error_In _ _ E). }
+  revert Hnd Hin Hs. generalize (flat_map uuids (firstn j cores)) (flat_map uuids (skipn j cores)). intros a b Hnd Ha Hb.
+  induction a as [|y a IH]; [destruct Ha|]. cbn in Hnd. apply NoDup_cons_iff in Hnd. destruct Hnd as [Hy Hnd].
+  destruct Ha as [Ha|Ha]; [subst y; apply Hy; apply in_app_iff; right; exact Hb | exact (IH Hnd Ha)].
+Qed.
+
+Lemma topo_wf : forall (cores : list step),
+  (forall s, In s cores -> uuids s <> []) -> NoDup (flat_map uuids cores) ->
+  (forall i s, nth_error cores i = Some s -> forall x, In x (req s) -> In x (flat_map uuids (firstn i cores))) ->
+  (exists order, wf_plan order (number 0 cores) = true) /\ validate_A (number 0 cores) = true.
+Proof.
+  intros cores Hne Hnd Htopo.
+  assert (Hprod : forall s x, In s (number 0 cores) -> In x (req s) -> In x (all_uuids (number 0 cores))).
+  { intros s x Hs Hx. rewrite all_uuids_number. apply In_number in Hs. destruct Hs as [j [s0 [Hj ->]]]. rewrite req_set_sid in Hx.
+    specialize (Htopo j s0 Hj x Hx). apply in_flat_map in Htopo. destruct Htopo as [s1 [H1 H2]]. apply in_flat_map. exists s1.
+    split; [|exact H2]. rewrite <- (firstn_skipn j cores). apply in_app_iff. left. exact H1. }
+  split.
+  - exists (order_upto (number 0 cores) (fun i => i) (List.length cores)). apply wf_plan_of_rank.
+    + intros s Hs. apply In_number in Hs. destruct Hs as [j [s0 [Hj ->]]]. rewrite uuids_set_sid. apply Hne. exact (nth_error_In _ _ Hj).
+    + rewrite map_sid_number. apply seq_NoDup.
+    + rewrite all_uuids_number. exact Hnd.
+    + intros s x Hs Hx. exact (Hprod s x Hs Hx).
+    + intros s Hs. apply In_number in Hs. destruct Hs as [j [s0 [Hj ->]]]. rewrite sid_set_sid. cbn [plus].
+      apply nth_error_Some. rewrite Hj. discriminate.
+    + intros s s' x Hs Hs' Hx Hx'. apply In_number in Hs, Hs'. destruct Hs as [j [s0 [Hj ->]]], Hs' as [j' [s0' [Hj' ->]]].
+      rewrite !sid_set_sid. cbn [plus]. rewrite req_set_sid in Hx. rewrite uuids_set_sid in Hx'.
+      exact (nodup_flat_map_split cores j j' s0' x Hnd Hj' Hx' (Htopo j s0 Hj x Hx)).
+  - unfold validate_A. apply forallb_forall. intros s Hs. apply subset_incl. intros x Hx. exact (Hprod s x Hs Hx).
+Qed.
